@@ -422,7 +422,11 @@ class Built:
             return f"(truth {1 if e._invert_ else 0} {self.show_term(e)})"
         if isinstance(e, Var) and e._predicate_type_ is not None and not isinstance(e, Literal):
             name = e._name__[2:] if e._name__.startswith('P_') else e._name__
-            args = ' '.join(self.show_term(v) for v in e._child_vars_.values())
+            # arguments in the order of the predicate's PARAMETERS (the library collects keyword arguments before
+            # positional ones; arguments are bound by name, their collection order is not part of the tree's meaning)
+            order = {p: i for i, p in enumerate(FN_ARGS.get(name, ()))}
+            kids = sorted(e._child_vars_.items(), key=lambda kv: order.get(kv[0], len(order)))
+            args = ' '.join(self.show_term(v) for _, v in kids)
             return f"(pred {1 if e._invert_ else 0} {name} {args})"
         if isinstance(e, ResultQuantifier):
             d = e._child_
